@@ -546,4 +546,10 @@ Definition has_element_u (v elem : value) : res value :=
       end
   | _ => Panic
   end.
-Definition has_element_v := binary_marks has_element_u.
+(* marks: the set's own marks and ALL marks of the candidate element, nested ones included
+   (fix: commit d57e001) *)
+Definition has_element_v (v elem : value) : res value :=
+  if is_marked v || contains_marked elem then
+    let '(uv, mv) := unmark v in let '(ue, me) := unmark_deep elem in
+    do r <- has_element_u uv ue; Ok (with_marks r (marks_union mv me))
+  else has_element_u v elem.
